@@ -50,6 +50,8 @@ manifest = {
          "kind_free_text": "seeded histories over the real weighted trie on a simulated StorageAdapter / real pebble on StrictMem, sorted-map reference + independent hasher, crash-prefix enumeration, tampering channel for proofs"},
         {"name": "cachesim", "path": "/verif/harness/cachesim", "serves_properties": [p for p in ["C06", "C07", "C08"] if p in PROPS],
          "kind_free_text": "seeded block trees over the real statecache package against a block-tree reference model; C08 runs the same model under a seeded task scheduler on an instrumented copy"},
+        {"name": "corrupt", "path": "/verif/harness/corrupt", "serves_properties": [p for p in ["C15"] if p in PROPS],
+         "kind_free_text": "corruption faults on stored values, peer messages and readers, driven through the real decoders and read paths"},
         {"name": "logsim", "path": "/verif/harness/logsim", "serves_properties": [p for p in ["C20"] if p in PROPS],
          "kind_free_text": "ring-buffer model of the in-memory logger, sequential histories and scheduled writers/readers"},
         {"name": "simrt", "path": "/verif/simrt", "serves_properties": [p for p in ["C08", "C16", "C20"] if p in PROPS],
